@@ -90,6 +90,10 @@ class TaggedList(list):  # type: ignore[type-arg]
 
 class Stack(list):  # type: ignore[type-arg]
     pass
+
+
+# subjects for the class-pattern cases (built HERE: a class pattern only matches instances of this module's classes)
+MATCH_POOL: list[object] = [PointNT(1, 2), TaggedList(), Stack([1, 2]), (3, 4), [5], 6, "s"]
 '''
 
 # value pools for the annotations used below that c01.POOLS does not have ('expr' pools are evaluated in the case module)
@@ -101,14 +105,14 @@ STMT_POOLS: dict[str, list[Any]] = {
     "tabbed": ["", "\t", "\tab", "\t\tab", "ab", "a\tb", " \tb", "\tab\tcd"],
     "prefixed": ["0x1f", "0b101", "0o17", "1f", "", "0x", "xx1f"],
     "mode": [0o700, 0o755],
+    "matchidx": [0, 1, 2, 3, 4, 5, 6],
 }
 STMT_EXPR_POOLS: dict[str, list[str]] = {
     "Path": ['Path("a.txt")', 'Path("empty")', 'Path("sub")', 'Path("sub/b.bin")', 'Path("missing")', 'Path("link")', 'Path("new/deep")', 'Path("")', 'Path("notes.md")', 'Path(".md")', 'Path("sub/x.tar.md")'],
     "re.Pattern[str]": ['re.compile("a+")', 're.compile("(b)|c")', 're.compile("")', 're.compile("x.txt$")'],
     "Bag": ["Bag()"],
-    "matchobj": ["PointNT(1, 2)", "TaggedList()", "Stack([1, 2])", "(3, 4)", "[5]", "6", '"s"'],
 }
-ANNOT = {"matchobj": "object", "relpath": "str", "newpath": "str", "bytespath": "bytes", "isodate": "str", "tabbed": "str", "prefixed": "str", "mode": "int"}
+ANNOT = {"matchidx": "int", "relpath": "str", "newpath": "str", "bytespath": "bytes", "isodate": "str", "tabbed": "str", "prefixed": "str", "mode": "int"}
 
 E = re.escape
 R_APP = r"^Replace `{0}\.append\(\.\.\.\); {0}\.append\(\.\.\.\)` with `{0}\.extend\(\(\.\.\., \.\.\.\)\)`$"
@@ -240,9 +244,9 @@ CASES: list[tuple[int, list[tuple[str, ...]], str, str | None, str, dict[str, An
     (158, [("p", "object")], 'match p:\n    case bool() as b1:\n        return ("b", b1)\n    case float() as f1:\n        return ("f", f1)\n    case tuple() as t1:\n        return ("t", t1)\nreturn None', 'match p:\n    case bool() as b1:\n        return ("b", b1)\n    case float(f1):\n        return ("f", f1)\n    case tuple() as t1:\n        return ("t", t1)\nreturn None', lit("Replace `float() as f1` with `float(f1)`"), {}),
     (158, [("p", "object")], 'match p:\n    case bool() as b1:\n        return ("b", b1)\n    case float() as f1:\n        return ("f", f1)\n    case tuple() as t1:\n        return ("t", t1)\nreturn None', 'match p:\n    case bool() as b1:\n        return ("b", b1)\n    case float() as f1:\n        return ("f", f1)\n    case tuple(t1):\n        return ("t", t1)\nreturn None', lit("Replace `tuple() as t1` with `tuple(t1)`"), {}),
     # guards: classes that merely derive from a self-matching builtin (a NamedTuple, a dataclass on a list base, a plain subclass)
-    (158, [("p", "matchobj")], 'match p:\n    case PointNT() as v0:\n        return ("nt", v0)\n    case _:\n        return ("other", p)', 'match p:\n    case PointNT(v0):\n        return ("nt", v0)\n    case _:\n        return ("other", p)', r"^Replace `PointNT\(\) as v0` with", {"fires": False}),
-    (158, [("p", "matchobj")], 'match p:\n    case TaggedList() as v1:\n        return ("tl", v1)\n    case _:\n        return ("other", p)', 'match p:\n    case TaggedList(v1):\n        return ("tl", v1)\n    case _:\n        return ("other", p)', r"^Replace `TaggedList\(\) as v1` with", {"fires": False}),
-    (158, [("p", "matchobj")], 'match p:\n    case Stack() as v2:\n        return ("st", v2)\n    case _:\n        return ("other", p)', 'match p:\n    case Stack(v2):\n        return ("st", v2)\n    case _:\n        return ("other", p)', r"^Replace `Stack\(\) as v2` with", {"fires": False}),
+    (158, [("k", "matchidx")], 'p = MATCH_POOL[k]\nmatch p:\n    case PointNT() as v0:\n        return ("nt", v0)\n    case _:\n        return ("other", p)', 'p = MATCH_POOL[k]\nmatch p:\n    case PointNT(v0):\n        return ("nt", v0)\n    case _:\n        return ("other", p)', r"^Replace `PointNT\(\) as v0` with", {"fires": False}),
+    (158, [("k", "matchidx")], 'p = MATCH_POOL[k]\nmatch p:\n    case TaggedList() as v1:\n        return ("tl", v1)\n    case _:\n        return ("other", p)', 'p = MATCH_POOL[k]\nmatch p:\n    case TaggedList(v1):\n        return ("tl", v1)\n    case _:\n        return ("other", p)', r"^Replace `TaggedList\(\) as v1` with", {"fires": False}),
+    (158, [("k", "matchidx")], 'p = MATCH_POOL[k]\nmatch p:\n    case Stack() as v2:\n        return ("st", v2)\n    case _:\n        return ("other", p)', 'p = MATCH_POOL[k]\nmatch p:\n    case Stack(v2):\n        return ("st", v2)\n    case _:\n        return ("other", p)', r"^Replace `Stack\(\) as v2` with", {"fires": False}),
     (134, [("nums", "list[int]")], "calls = []\n@lru_cache(maxsize=None)\ndef sq(a1: int) -> int:\n    calls.append(a1)\n    return a1 * a1\nout = [sq(e) for e in nums + nums]\nreturn out, calls, sq.cache_info()", "calls = []\n@cache\ndef sq(a1: int) -> int:\n    calls.append(a1)\n    return a1 * a1\nout = [sq(e) for e in nums + nums]\nreturn out, calls, sq.cache_info()", lit("Replace `@lru_cache(maxsize=None)` with `@cache`"), {}),
     (134, [("nums", "list[int]")], "@functools.lru_cache(maxsize=None)\ndef sq(a1: int) -> int:\n    return a1 * a1\nreturn [sq(e) for e in nums], sq.cache_info()", "@functools.cache\ndef sq(a1: int) -> int:\n    return a1 * a1\nreturn [sq(e) for e in nums], sq.cache_info()", lit("Replace `@functools.lru_cache(maxsize=None)` with `@functools.cache`"), {}),
     (134, [("nums", "list[int]")], "@lru_cache(maxsize=2)\ndef sq(a1: int) -> int:\n    return a1 * a1\nreturn [sq(e) for e in nums], sq.cache_info()", "@cache\ndef sq(a1: int) -> int:\n    return a1 * a1\nreturn [sq(e) for e in nums], sq.cache_info()", r"cache", {"fires": False}),
